@@ -246,7 +246,16 @@ fn yuv_source_checks<T: Pixel>(ctx: &Ctx, idx: u64, w: usize, h: usize, ss: (u8,
 
     // ---- encoding: subsampled vs 4:4:4
     if !matches!(cfg.matrix_coefficients, MC::Identity | MC::BT2020ConstantLuminance | MC::ChromaticityDerivedConstantLuminance | MC::ST2085 | MC::ICtCp) || true {
-        let px: Vec<[f32; 3]> = (0..w * h).map(|_| [rng.unit() as f32, rng.unit() as f32, rng.unit() as f32]).collect();
+        let mut px: Vec<[f32; 3]> = (0..w * h).map(|_| [rng.unit() as f32, rng.unit() as f32, rng.unit() as f32]).collect();
+        // the first and the last pixel are faintly tinted greys (both are always probed against their 1x1 image):
+        // what the rest of the image contains must not change how they are encoded
+        if w * h >= 2 {
+            let g = rng.range(0.2, 0.8);
+            let t = 10f64.powf(-4.0 - 2.0 * rng.unit());
+            px[0] = [g as f32, (g + t) as f32, (g - t) as f32];
+            let last = w * h - 1;
+            px[last] = [(g + t) as f32, g as f32, g as f32];
+        }
         let r = Rgb::new(px.clone(), w, h, cfg.transfer_characteristics, cfg.color_primaries).unwrap();
         let keep = r.clone();
         let sub: Result<Yuv<T>, _> = Yuv::try_from((&r, cfg));
@@ -350,6 +359,9 @@ fn float_checks(ctx: &Ctx, idx: u64, w: usize, h: usize, cnt: &Counters) {
                 4 => [q[0], q[1], q[0]],
                 5 => [q[0], q[2], q[2]],
                 6 => [q[2], q[1], q[0]],
+                7 => [0.0, q[1], 0.0],
+                // differs from its predecessor only in the sign of a zero when it follows case 7
+                8 if q[0] == 0.0 => [-0.0, q[1], if i % 2 == 0 { 0.0 } else { -0.0 }],
                 _ => px[i],
             };
         }
